@@ -69,6 +69,7 @@ def explore_step_run(ix, quiet, capture, with_scenario, hooks_may_raise_base=Fal
     func = ix.func("behave.model:Step.run")
     if mutate:
         func = mutate(func)
+    st.freeze_base()
     outs = it.run(func, st, [runner], {"quiet": quiet, "capture": capture}, self_val=step)
     exits = []
     for (s, k, v) in outs:
@@ -135,12 +136,12 @@ def step_run_summary(world, symbols):
         for sym in symbols:
             s = st.fork()
             name = sym.split("+")[0]
-            o = s.obj(step)
+            o = s.wobj(step)
             if sym == "skip-scenario":
                 o.fields["status"] = S("skipped")
                 cur = s.ghost.get("current_element")
                 if cur is not None:
-                    s.heap[cur].fields["should_skip"] = True
+                    s.wobj(cur).fields["should_skip"] = True
                 ret = True
             else:
                 o.fields["status"] = S(name)
@@ -350,12 +351,13 @@ def explore_scenario_run(ix, symbols=None, cls="behave.model:Scenario", mutate=N
     }
     scen = st.alloc(HObj(ci, fields, label="scenario"))
     if continue_after_failed:
-        st.obj(scen).fields["continue_after_failed_step"] = True
+        st.wobj(scen).fields["continue_after_failed_step"] = True
     st.ghost["current_element"] = scen.oid
     st.ghost["hooks_may_raise_base"] = False
     if not thorough:
         st.ghost["no_user_abort"] = True
     st.pinned = st.pinned + (scen.oid,)
+    st.freeze_base()
     outs = it.run(func, st, [runner], {}, self_val=scen)
     exits = []
     for (s, k, v) in outs:
@@ -384,6 +386,562 @@ def explore_scenario_run(ix, symbols=None, cls="behave.model:Scenario", mutate=N
             "gap": g.get("gap", False), "v2_err": g.get("v2.err"),
             "cached_last": g.get("cached_last"),
             "notrun": sorted(k[7:] for k in g if k.startswith("notrun_")),
+            "imprecise": list(s.imprecise),
+        }
+        exits.append(Exit(s, k, v, facts))
+    return it, exits
+
+
+# ----------------------------------------------------------------------
+# ScenarioContainer.run (Feature / Rule), ScenarioOutline.run
+# ----------------------------------------------------------------------
+CHILD_SYMBOLS = ["ok", "failed", "ok+abort", "failed+abort", "ok+peek", "failed+undefined", "ok+skipparent"]
+
+
+def child_run_stub(world, container_ref_getter, symbols):
+    """A child's run(runner): returns failed True/False; may abort the run; user code
+    inside may read the container's status (which caches a final value); may record
+    undefined steps."""
+    def stub(it, st, args, kw, node):
+        outs = []
+        for sym in symbols:
+            s = st.fork()
+            parts = sym.split("+")
+            failed = parts[0] == "failed"
+            if "abort" in parts:
+                s.ghost["aborted"] = True
+                it.emit(s, ("abort",))
+            if "peek" in parts:
+                c = container_ref_getter(s)
+                if c is not None:
+                    s.wobj(c).fields["_cached_status"] = S("failed")
+                    it.emit(s, ("setattr", c.oid, None, "_cached_status", S("failed")))
+            if "skipparent" in parts:
+                c = container_ref_getter(s)
+                if c is not None:
+                    s.wobj(c).fields["should_skip"] = True
+                    s.ghost["skipped_midrun"] = True
+            if "undefined" in parts:
+                r = s.obj(world._runner_of(s))
+                lst = r.fields.get("undefined_steps") or r.fields.get("_undefined_steps")
+                lo = s.wobj(lst)
+                lo.count = 1 if lo.count == 0 else GE2
+                s.ghost["undefined_grew"] = True
+            if "KI" in parts:
+                s.note("%s: child.run() is interrupted (KeyboardInterrupt)" % it.loc(node))
+                it.emit(s, ("child.run", args[0].oid, "KI"))
+                outs.append((s, "raise", Exc("KeyboardInterrupt", None, "child.run")))
+                continue
+            s.note("%s: child.run() -> %s" % (it.loc(node), sym))
+            it.emit(s, ("child.run", args[0].oid, failed))
+            outs.append((s, "val", failed))
+        return outs
+    return stub
+
+
+def _bracket_recorder(entity, body_event="child.run", continue_flag=False):
+    order_after = {"BT": ("idle", "BT"), "B": ("idle", "BT"), "A": ("B", "BODY"), "AT": ("A", "AT")}
+
+    def rec(st, ev):
+        g = st.ghost
+        k = ev[0]
+        if k == "hook":
+            name, failed = ev[1], ev[3]
+            if failed is True and name.startswith("before"):
+                g["before_failed"] = True
+            if failed is True:
+                g["any_hook_failed"] = True
+            nxt = {"before_tag": "BT", "before_" + entity: "B", "after_" + entity: "A", "after_tag": "AT"}.get(name)
+            if nxt is None:
+                g.setdefault("hk.err", "unexpected hook %s" % name)
+                return
+            if g.get("hk", "idle") not in order_after[nxt]:
+                g.setdefault("hk.err", "hook %s in bracket state %s" % (name, g.get("hk", "idle")))
+            g["hk"] = nxt
+            if ev[2] is not None and ev[2] != g.get("current_element"):
+                g.setdefault("hk.err", "hook %s called for/attributed to a different element" % name)
+        elif k == body_event:
+            if g.get("hk") == "B":
+                g["hk"] = "BODY"
+            elif g.get("hk") in ("A", "AT", "BT"):
+                g.setdefault("hk.err", "body runs in bracket state %s" % g.get("hk"))
+            if g.get("before_failed"):
+                g.setdefault("hk.err", "body runs although a before hook failed")
+            if g.get("stop_now"):
+                g.setdefault("stop.err", "a child is run after a failure although --stop is set or the run is aborted")
+            g["n_run"] = 1 if g.get("n_run", 0) == 0 else GE2
+            if ev[2] is True:
+                g["child_failed"] = True
+            if ev[2] == "KI":
+                g["ki"] = True
+            g["last_child_failed"] = ev[2] is True
+            g["phase"] = "loop"
+        elif k == "iter":
+            # a new iteration: was the previous failing child a reason to stop?
+            if g.get("last_child_failed"):
+                cfg_stop = g.get("@stop")
+                if cfg_stop is True or g.get("aborted") is True:
+                    g["stop_now"] = True
+        elif k == "fmt":
+            i, m = ev[1], ev[2]
+            key = "f%d" % i
+            cur = g.get(key, "start")
+            t = {("start", entity): "O", ("O", "background"): "OB",
+                 ("O", "eof"): "C", ("OB", "eof"): "C", ("O", "rule_finished"): "C", ("OB", "rule_finished"): "C",
+                 ("start", "uri"): "start"}
+            nxt = t.get((cur, m))
+            if nxt is None:
+                g.setdefault("fmt.err", "formatter %d: %s after %s" % (i, m, cur))
+            else:
+                g[key] = nxt
+            if m in ("eof", "rule_finished") and m != ("eof" if entity == "feature" else "rule_finished"):
+                g.setdefault("fmt.err", "wrong closing callback %s for %s" % (m, entity))
+        elif k == "pop":
+            if ev[1]:
+                g["pop_raised"] = True
+        elif k == "setattr" and ev[3] == "_cached_status" and ev[1] == g.get("current_element"):
+            v = ev[4]
+            final = isinstance(v, EnumVal) and v.name != "untested"
+            g["cached_last"] = (g.get("phase", "before"), "final" if final else
+                                ("untested" if isinstance(v, EnumVal) else "computed"))
+        elif k == "loopexit":
+            if g.get("phase") == "loop" or ev[2] in ("run_items", "scenarios"):
+                g["phase"] = "after"
+        elif k == "mark_skipped":
+            g["marked_skipped"] = True
+    return Recorder(rec)
+
+
+def _absl(st, name, factory):
+    o = HObj("list", kind="list", items=None, label=name)
+    o.base = name
+    o.fields["@seq"] = AbsSeq(name, factory)
+    return st.alloc(o)
+
+
+def explore_container_run(ix, cls, thorough=False, mutate=None):
+    """cls: 'behave.model:Feature' or 'behave.model:Rule' (ScenarioContainer.run)."""
+    from .monitors import scope_monitor
+    w = World(ix)
+    ci = ix.cls(cls)
+    func = ci.lookup("run")
+    if func is None:
+        raise AnalysisError("no run() for %s" % cls)
+    if mutate:
+        func = mutate(func)
+    entity = "feature" if ci.name == "Feature" else "rule"
+    mons = MonitorSet([_bracket_recorder(entity), scope_monitor()])
+    stubs = dict(w.stubs)
+    stubs["@with"] = "transparent"
+    holder = {}
+    symbols = CHILD_SYMBOLS if thorough else ["ok", "failed", "failed+abort", "ok+peek", "ok+skipparent"]
+    stubs["ChildStub.run"] = child_run_stub(w, lambda s: holder.get("self"), symbols)
+
+    def sel_stub(tag):
+        def f(it, st, args, kw, node):
+            s2 = st.fork()
+            st.note("%s: %s -> True" % (it.loc(node), tag))
+            s2.note("%s: %s -> False" % (it.loc(node), tag))
+            return [(st, "val", True), (s2, "val", False)]
+        return f
+    stubs["ChildStub.should_run_with_name_select"] = sel_stub("child.should_run_with_name_select")
+    stubs["ChildStub.should_run_with_tags"] = sel_stub("child.should_run_with_tags")
+    stubs["TagExprStub.check"] = sel_stub("tag expression selects the " + entity)
+
+    def mark_skipped(it, st, args, kw, node):
+        it.emit(st, ("mark_skipped", args[0].oid))
+        return [(st, "val", None)]
+    stubs["ChildStub.mark_skipped"] = mark_skipped
+    stubs["TagAndStatusStatement.effective_tags"] = lambda it, st, a, k, n: [(st, "val", Top("effective_tags", True))]
+    stubs["ScenarioContainer.compute_status"] = lambda it, st, a, k, n: [(st, "val", Top("computed-status", True))]
+
+    def on_return(f, st, kind, val):
+        if f.qualname == "ScenarioContainer.should_run":
+            n = st.ghost.get("n_should_run", 0)
+            if n == 0:
+                cur = st.ghost.get("current_element")
+                v0 = st.heap[cur].fields.get("should_skip") if cur in st.heap else None
+                st.ghost["should_skip_entry"] = v0 if isinstance(v0, bool) else None
+            st.ghost["should_run#%d" % (n + 1)] = val
+            st.ghost["n_should_run"] = n + 1
+
+    def on_event(st, ev):
+        # remember config.stop once it is concrete (for the stop monitor)
+        mons(st, ev)
+    attr_stubs = {"RunnerStub.aborted": lambda it, st, base, node: w.read_aborted(it, st, node)}
+    it = Interp(ix, stubs=stubs, on_event=on_event, name=ci.name + ".run", on_return=on_return, attr_stubs=attr_stubs)
+    st = w.new_state()
+    mons.init(st)
+    cfg = w.make_config(st)
+    st.obj(cfg).field_domains["name"] = (None, "pattern")
+    runner = w.make_runner(st, cfg)
+
+    def tag_factory(interp, s):
+        return [(s, Top("tag", True), "tag")]
+
+    def child_factory(interp, s):
+        # make config.stop visible to the monitor
+        c = s.obj(cfg).fields.get("stop")
+        if isinstance(c, bool):
+            s.ghost["@stop"] = c
+        return [(s, s.alloc(HObj("ChildStub", {}, open=True, label="child")), "run item")]
+    fields = {
+        "tags": _absl(st, "tags", tag_factory),
+        "run_items": _absl(st, "run_items", child_factory),
+        "scenarios": _absl(st, "scenarios_list", child_factory),
+        "background": Top("container.background", True, domain=(None, "bg")),
+        "should_skip": Top("bool:should_skip0", True, domain=(False, True)),
+        "skip_reason": None,
+        "hook_failed": Top("bool:hook_failed0", True, domain=(False, True)),
+        "_cached_status": Top("cached0", True),
+        "run_starttime": 0, "run_endtime": 0,
+        "name": Top("name", True), "keyword": Top("kw", True),
+        "error_message": None, "exception": None, "exc_traceback": None,
+        "parent": Top("parent", True), "feature": Top("feature", True),
+        "description": Top("descr", True), "location": Top("loc", True),
+        "captured": st.alloc(HObj("CapturedStub", {}, label="captured")),
+    }
+    me = st.alloc(HObj(ci, fields, label=entity))
+    holder["self"] = me
+    st.ghost["current_element"] = me.oid
+    st.ghost["no_user_abort"] = not thorough
+    st.pinned = st.pinned + (me.oid,)
+    st.freeze_base()
+    outs = it.run(func, st, [runner], {}, self_val=me)
+    exits = []
+    for (s, k, v) in outs:
+        g = s.ghost
+        so = s.obj(me)
+        cfgo = s.obj(cfg)
+        b = lambda x: x if isinstance(x, bool) else None
+        facts = {
+            "entity": entity, "ret": v if k == "val" else None,
+            "child_failed": g.get("child_failed", False), "any_hook_failed": g.get("any_hook_failed", False),
+            "before_failed": g.get("before_failed", False), "pop_raised": g.get("pop_raised", False),
+            "hk": g.get("hk", "idle"), "hk_err": g.get("hk.err"), "stop_err": g.get("stop.err"),
+            "fmt": [g.get("f%d" % i, "start") for i in range(w.n_formatters)], "fmt_err": g.get("fmt.err"),
+            "scope": g.get("scope"), "scope_err": g.get("scope.err"),
+            "n_run": g.get("n_run", 0), "cached": so.fields.get("_cached_status"), "cached_last": g.get("cached_last"),
+            "hook_failed": so.fields.get("hook_failed"),
+            "should_skip": so.fields.get("should_skip"), "skipped_midrun": g.get("skipped_midrun", False),
+            "should_skip_entry": g.get("should_skip_entry"),
+            "dry_run": b(cfgo.fields.get("dry_run")), "show_skipped": b(cfgo.fields.get("show_skipped")),
+            "stop": b(cfgo.fields.get("stop")),
+            "selected1": g.get("should_run#1"), "selected2": g.get("should_run#2"),
+            "aborted": g.get("aborted"), "aborted_at_entry": g.get("aborted_at_entry", False),
+            "imprecise": list(s.imprecise),
+        }
+        exits.append(Exit(s, k, v, facts))
+    return it, exits
+
+
+def explore_outline_run(ix, thorough=False, mutate=None):
+    w = World(ix)
+    func = ix.func("behave.model:ScenarioOutline.run")
+    if mutate:
+        func = mutate(func)
+    mons = MonitorSet([_bracket_recorder("outline")])
+    stubs = dict(w.stubs)
+    holder = {}
+    symbols = CHILD_SYMBOLS if thorough else ["ok", "failed", "failed+abort", "ok+peek"]
+    stubs["ChildStub.run"] = child_run_stub(w, lambda s: holder.get("self"), symbols)
+    attr_stubs = {"RunnerStub.aborted": lambda it, st, base, node: w.read_aborted(it, st, node)}
+    st = w.new_state()
+    mons.init(st)
+    cfg = w.make_config(st)
+    runner = w.make_runner(st, cfg)
+
+    def child_factory(interp, s):
+        c = s.obj(cfg).fields.get("stop")
+        if isinstance(c, bool):
+            s.ghost["@stop"] = c
+        return [(s, s.alloc(HObj("ChildStub", {}, open=True, label="row scenario")), "row scenario")]
+    seq = AbsSeq("scenarios", child_factory)
+    attr_stubs["ScenarioOutline.scenarios"] = lambda it, s, base, node: [(s, "val", seq)]
+    it = Interp(ix, stubs=stubs, on_event=mons, name="ScenarioOutline.run", attr_stubs=attr_stubs)
+    ci = ix.cls("behave.model:ScenarioOutline")
+    me = st.alloc(HObj(ci, {"_cached_status": Top("cached0", True), "should_skip": False,
+                            "hook_failed": False, "name": Top("name", True)}, label="outline"))
+    holder["self"] = me
+    st.ghost["current_element"] = me.oid
+    st.pinned = st.pinned + (me.oid,)
+    st.freeze_base()
+    outs = it.run(func, st, [runner], {}, self_val=me)
+    exits = []
+    for (s, k, v) in outs:
+        g = s.ghost
+        b = lambda x: x if isinstance(x, bool) else None
+        facts = {"entity": "outline", "ret": v if k == "val" else None, "child_failed": g.get("child_failed", False),
+                 "stop_err": g.get("stop.err"), "n_run": g.get("n_run", 0),
+                 "cached": s.obj(me).fields.get("_cached_status"), "cached_last": g.get("cached_last"),
+                 "stop": b(s.obj(cfg).fields.get("stop")), "aborted": g.get("aborted"),
+                 "imprecise": list(s.imprecise)}
+        exits.append(Exit(s, k, v, facts))
+    return it, exits
+
+
+# ----------------------------------------------------------------------
+# ModelRunner.run_model
+# ----------------------------------------------------------------------
+def explore_run_model(ix, thorough=False, mutate=None):
+    w = World(ix)
+    func = ix.func("behave.runner:ModelRunner.run_model")
+    if mutate:
+        func = mutate(func)
+    ci = ix.cls("behave.runner:ModelRunner")
+
+    def rec(st, ev):
+        g = st.ghost
+        k = ev[0]
+        if k == "hook":
+            name, failed = ev[1], ev[3]
+            seq = g.get("allseq", "start")
+            if name == "before_all":
+                if seq != "start":
+                    g.setdefault("h4.err", "before_all called in state %s" % seq)
+                g["allseq"] = "began"
+                if failed is True:
+                    g["before_all_failed"] = True
+            elif name == "after_all":
+                if seq not in ("began", "features"):
+                    g.setdefault("h4.err", "after_all called in state %s" % seq)
+                g["allseq"] = "ended"
+            else:
+                g.setdefault("h4.err", "unexpected hook %s in run_model" % name)
+            if failed is True:
+                g["hook_failed_any"] = True
+        elif k == "child.run":
+            if g.get("allseq", "start") not in ("began", "features"):
+                g.setdefault("h4.err", "a feature is run in state %s (before before_all / after after_all)" % g.get("allseq", "start"))
+            g["allseq"] = "features"
+            if g.get("before_all_failed"):
+                g.setdefault("h4.err", "a feature is run although before_all failed")
+            if g.get("stop_now"):
+                g.setdefault("stop.err", "a feature is run after a failure although --stop is set or the run is aborted")
+            if ev[2] is True:
+                g["child_failed"] = True
+            if ev[2] == "KI":
+                g["ki"] = True
+            g["last_child_failed"] = ev[2] is True or ev[2] == "KI"
+            g["n_run"] = 1 if g.get("n_run", 0) == 0 else GE2
+            # uri must have been announced to every formatter for this feature
+            if g.get("uri_seen") != tuple(range(w.n_formatters)):
+                g.setdefault("f4.err", "feature run without uri() to every formatter first")
+            g["uri_seen"] = ()
+        elif k == "iter":
+            _close(st)
+            g["iter_open"] = True
+            g["cur_feature"] = ev[3]
+            g["rep_feature"] = ()
+            if g.get("last_child_failed"):
+                if g.get("@stop") is True or g.get("aborted") is True:
+                    g["stop_now"] = True
+        elif k == "loopexit":
+            _close(st)
+            g["iter_open"] = False
+            g["loop_done"] = True
+        elif k == "fmt":
+            if ev[2] == "uri":
+                g["uri_seen"] = tuple(sorted(set(g.get("uri_seen", ()) + (ev[1],))))
+            elif ev[2] == "close":
+                key = "closed%d" % ev[1]
+                if g.get(key):
+                    g.setdefault("f4.err", "formatter %d closed twice" % ev[1])
+                if not g.get("loop_done"):
+                    g.setdefault("f4.err", "formatter closed before the feature loop ended")
+                g[key] = True
+        elif k == "reporter":
+            if ev[2] == "feature":
+                cur = g.get("cur_feature")
+                if not g.get("iter_open") or not isinstance(cur, Ref) or ev[3] != cur.oid:
+                    g.setdefault("y4.err", "reporter.feature() called outside the loop or for another feature")
+                if ev[1] in g.get("rep_feature", ()):
+                    g.setdefault("y4.err", "reporter %d gets the same feature twice" % ev[1])
+                g["rep_feature"] = tuple(sorted(g.get("rep_feature", ()) + (ev[1],)))
+            elif ev[2] == "end":
+                key = "ended%d" % ev[1]
+                if g.get(key):
+                    g.setdefault("y4.err", "reporter %d ended twice" % ev[1])
+                g[key] = True
+        elif k == "cleanups":
+            g["cleanups_called"] = True
+            if ev[1]:
+                g["cleanups_failed"] = True
+
+    def _close(st):
+        g = st.ghost
+        if g.get("iter_open"):
+            if g.get("rep_feature", ()) != tuple(range(2)):
+                g.setdefault("y4.err", "a feature is not reported to every reporter (reported to %s)" % (g.get("rep_feature", ()),))
+        g["cur_feature"] = None
+
+    mons = MonitorSet([Recorder(rec)])
+    stubs = dict(w.stubs)
+    stubs["@with"] = "transparent"
+    holder = {}
+    symbols = ["ok", "failed", "ok+abort", "failed+abort", "failed+undefined", "ok+undefined", "KI"]
+    stubs["ChildStub.run"] = child_run_stub(w, lambda s: None, symbols)
+
+    def run_hook(it, st, args, kw, node):
+        outs = w.hook_summary(it, st, args[1], None, node)
+        for (s, k, v) in outs:
+            if s.ghost.pop("hook_failures", None):
+                r = s.wobj(holder["runner"])
+                from .absexpr import x_add
+                cur = r.fields.get("hook_failures")
+                r.fields["hook_failures"] = x_add(cur, 1) if not isinstance(cur, Top) else cur
+                s.ghost["hook_failure_counted"] = True
+        return outs
+    stubs["ModelRunner.run_hook"] = run_hook
+    stubs["ModelRunner.setup_capture"] = lambda it, st, a, k, n: [(st, "val", None)]
+    attr_stubs = {"ContextStub.aborted": lambda it, st, base, node: w.read_aborted(it, st, node)}
+    it = Interp(ix, stubs=stubs, on_event=mons, name="ModelRunner.run_model", attr_stubs=attr_stubs)
+    st = w.new_state()
+    mons.init(st)
+    cfg = w.make_config(st)
+    runner = w.make_runner(st, cfg, real_class=ci)
+    holder["runner"] = runner
+
+    def feature_factory(interp, s):
+        c = s.obj(cfg).fields.get("stop")
+        if isinstance(c, bool):
+            s.ghost["@stop"] = c
+        return [(s, s.alloc(HObj("ChildStub", {}, open=True, label="feature")), "feature")]
+    features = AbsSeq("features", feature_factory)
+    st.ghost["no_user_abort"] = not thorough
+    st.freeze_base()
+    outs = it.run(func, st, [], {"features": features}, self_val=runner)
+    exits = []
+    for (s, k, v) in outs:
+        g = s.ghost
+        ro = s.obj(runner)
+        und = s.obj(ro.fields["_undefined_steps"])
+        truthy = None
+        if k == "val":
+            tv = it.truth(s.fork(), v) if not isinstance(v, Top) else []
+            truthy = tv[0][1] if len(tv) == 1 else None
+        facts = {
+            "ret": v if k == "val" else None, "truthy": truthy,
+            "child_failed": g.get("child_failed", False), "ki": g.get("ki", False),
+            "aborted": g.get("aborted"), "hook_failed_any": g.get("hook_failed_any", False),
+            "hook_failures": ro.fields.get("hook_failures"),
+            "undefined_grew": und.count != 0, "cleanups_failed": g.get("cleanups_failed", False),
+            "cleanups_called": g.get("cleanups_called", False),
+            "allseq": g.get("allseq", "start"), "h4_err": g.get("h4.err"), "stop_err": g.get("stop.err"),
+            "y4_err": g.get("y4.err"), "f4_err": g.get("f4.err"),
+            "closed": [bool(g.get("closed%d" % i)) for i in range(w.n_formatters)],
+            "ended": [bool(g.get("ended%d" % i)) for i in range(2)],
+            "dry_run": s.obj(cfg).fields.get("dry_run") if isinstance(s.obj(cfg).fields.get("dry_run"), bool) else None,
+            "n_run": g.get("n_run", 0),
+            "imprecise": list(s.imprecise),
+        }
+        exits.append(Exit(s, k, v, facts))
+    return it, exits
+
+
+# ----------------------------------------------------------------------
+# ModelRunner.run_hook
+# ----------------------------------------------------------------------
+HOOK_NAMES = ["before_all", "after_all", "before_feature", "after_feature", "before_rule", "after_rule",
+              "before_scenario", "after_scenario", "before_step", "after_step", "before_tag", "after_tag"]
+LAYERS = [("feature",), ("feature", "rule"), ("feature", "scenario"), ("feature", "rule", "scenario")]
+
+
+def explore_run_hook(ix, name, layers, mutate=None):
+    """run_hook(name, context, arg) with the context holding the given layers."""
+    w = World(ix)
+    func = ix.func("behave.runner:ModelRunner.run_hook")
+    if mutate:
+        func = mutate(func)
+    ci = ix.cls("behave.runner:ModelRunner")
+    watched = {}
+
+    def rec(st, ev):
+        g = st.ghost
+        if ev[0] == "setattr":
+            oid, attr = ev[1], ev[3]
+            if oid in watched:
+                g["w:%s:%s" % (watched[oid], attr)] = True
+        elif ev[0] == "userhook":
+            g["userhook"] = ev[1]
+        elif ev[0] == "abort":
+            g["abort_called"] = True
+
+    mons = MonitorSet([Recorder(rec)])
+    stubs = dict(w.stubs)
+    stubs["@with"] = "transparent"
+    stubs["ContextStub.use_with_user_mode"] = lambda it, st, a, k, n: [(st, "val", None)]
+    stubs["ExceptionUtil.describe"] = lambda it, st, a, k, n: [(st, "val", "<exception text>")]
+    stubs["ExceptionUtil.set_traceback"] = lambda it, st, a, k, n: [(st, "val", None)]
+
+    def user_hook(it, st, args, kw, node):
+        outs = []
+        ok = st.fork()
+        it.emit(ok, ("userhook", "return"))
+        ok.note("user hook returns")
+        outs.append((ok, "val", None))
+        from .world import USER_EXC
+        for exc in USER_EXC:
+            se = st.fork()
+            it.emit(se, ("userhook", exc))
+            se.note("user hook raises %s" % exc)
+            cls = ix.cls(exc) if exc in ix.classes_by_name else exc
+            outs.append((se, "raise", Exc(cls, None, "user hook")))
+        return outs
+
+    def hooks_getitem(it, st, args, kw, node):
+        return [(st, "val", user_hook)]
+    stubs["HooksStub.__getitem__"] = hooks_getitem
+    it = Interp(ix, stubs=stubs, on_event=mons, name="ModelRunner.run_hook")
+    st = w.new_state()
+    mons.init(st)
+    cfg = w.make_config(st)
+    runner = w.make_runner(st, cfg, real_class=ci)
+    st.wobj(st.obj(runner).fields["hooks"]).open = True
+    st.wobj(runner).fields["hook_failures"] = 0
+    ctxr = st.obj(runner).fields["context"]
+    elems = {}
+    for layer in ("feature", "rule", "scenario", "step"):
+        o = HObj("ElementStub", {"hook_failed": False, "error_message": Top("error_message0", True, domain=(None, "earlier message")),
+                                 "exception": None, "exc_traceback": None, "tags": Top("tags", True)},
+                 label=layer)
+        elems[layer] = st.alloc(o)
+        watched[elems[layer].oid] = layer
+    for layer in layers:
+        st.wobj(ctxr).fields[layer] = elems[layer]
+    stubs["ElementStub.store_exception_context"] = w.store_exc
+
+    def store_exc(it_, s, args, kw, node):
+        it_.emit(s, ("setattr", args[0].oid, None, "exception", args[1]))
+        return w.store_exc(it_, s, args, kw, node)
+    it.stubs["ElementStub.store_exception_context"] = store_exc
+    # argument of the hook
+    if "tag" in name:
+        arg = "sometag"
+        target = layers[-1]
+    elif "all" in name:
+        arg = None
+        target = None
+    else:
+        target = name.split("_", 1)[1]
+        arg = elems[target]
+    args = [name, ctxr] + ([arg] if arg is not None else [])
+    st.pinned = st.pinned + tuple(e.oid for e in elems.values())
+    st.freeze_base()
+    outs = it.run(func, st, args, {}, self_val=runner)
+    exits = []
+    for (s, k, v) in outs:
+        g = s.ghost
+        marked = [l for l, r in elems.items() if s.obj(r).fields.get("hook_failed") is True]
+        written = sorted(kk[2:] for kk in g if kk.startswith("w:"))
+        cfgo = s.obj(cfg)
+        facts = {
+            "name": name, "layers": layers, "target": target,
+            "userhook": g.get("userhook"), "marked": marked, "written": written,
+            "hook_failures": s.obj(runner).fields.get("hook_failures"),
+            "aborted": g.get("aborted") is True, "abort_called": g.get("abort_called", False),
+            "dry_run": cfgo.fields.get("dry_run") if isinstance(cfgo.fields.get("dry_run"), bool) else None,
+            "error_message": {l: s.obj(r).fields.get("error_message") for l, r in elems.items()},
             "imprecise": list(s.imprecise),
         }
         exits.append(Exit(s, k, v, facts))
